@@ -767,7 +767,7 @@ def unit(root='/repo'):
     child = tok(Fn(OVL, OI, 'child', props=P, splices=[BCAST],
                    ensures=['%s == %s // [C10.view.child.frame]' % (H1, H0),
                             'r == (if %s.contains_key(name@) { Some(%s[name@]) } else { None::<Node> }) // [C10.view.child.exact] the entry of THIS node\'s table under exactly that name' % (KID, KID)]), ['get'])
-    insc = tok(Fn(OVL, OI, 'insert_child', props=P, body_resub=[TO_STRING, (r'\*node\.parent\.lock\(\)\.unwrap\(\) = Arc::downgrade\(self\);', 'node.parent.set_parent(arc_downgrade(self), Tracked(vxv));', 'assignment through the lock of the parent cell -> model call set_parent (the cell holds the weak link to self afterwards)')],
+    insc = tok(Fn(OVL, OI, 'insert_child', props=P, body_resub=[TO_STRING, (r'\*node\.parent\.lock\(\)\.unwrap\(\) = Arc::downgrade\(self\);', 'node.parent.set_parent(arc_downgrade(self), Tracked(vxv));', 'every: assignment through the lock of the parent cell -> model call set_parent (0 or more occurrences: a version without the assignment is verified as it stands and fails the parent-link clause instead of losing the rule; the cell holds the weak link to self afterwards)')],
                   ensures=['%s == (LView { kids: old(vxv).kids.insert(self.childrens.id(), %s.insert(name@, node)), par: old(vxv).par.insert(node.parent.id(), Some(*self)), ..%s }) // [C10.view.insert_child.exact] one entry of one table and the parent link of the entered node (".." of a node is the directory it was entered into), nothing else' % (H1, KID, H0)]), ['insert', 'set_parent'])
     remc = tok(Fn(OVL, OI, 'remove_child', props=P,
                   ensures=['%s == (LView { kids: old(vxv).kids.insert(self.childrens.id(), %s.remove(name@)), ..%s }) // [C10.view.remove_child.exact] one entry of one table, nothing else' % (H1, KID, H0)]), ['remove'])
